@@ -194,6 +194,17 @@ func c13Crypt(nb, extra int, inPlace, dec bool) {
 		dst = verifrt.Bytes(n + extra)
 	}
 	spare := append([]byte{}, dst[n:]...)
+	// Warm-up call on another sector: natively it leaves a used (non-zero) tweak buffer in the
+	// pool, so a missing re-initialisation reproduces in native replay too (the engine's pool
+	// model hands out arbitrary contents anyway). Run with the branch-free doubling to avoid
+	// doubling the path count.
+	{
+		saved := c13LemmaMul2
+		c13LemmaMul2 = true
+		warm := make([]byte, 16)
+		c.Encrypt(warm, warm, ^sector)
+		c13LemmaMul2 = saved
+	}
 	var p bool
 	if dec {
 		p = verifrt.Panics(func() { c.Decrypt(dst, src, sector) })
